@@ -1,6 +1,5 @@
 """Reasons for properties that are not claimed."""
 NA = {
-    "C23": "Needs taint over cipher outputs under the UF abstraction (not built) and the writer's decisions on whole documents.",
     "C24": "Needs MD5/SHA-2/RC4/AES as uninterpreted functions (not built); revision 6 hashRev6 has a data-dependent loop over hash outputs.",
     "C32": "Only composePageRotation's modular arithmetic is encodable; the property is about page tree surgery on whole documents.",
     "C33": "Only span arithmetic (pageSpans) is encodable; page sequence preservation through split/merge needs whole documents.",
